@@ -333,21 +333,48 @@ def constraints(site: Site, P: dict, Lp, Lt, target, sun):
     return c
 
 
-def sensor_params(sensor, kind: str, host: str) -> dict:
-    """Read the configured parameters off a real Sensor object (inputs of the property)."""
+def sensor_params(sensor, kind: str, host: str, cfg: dict | None = None) -> dict:
+    """Parameters of a sensor as inputs of the property.
+
+    The PUBLIC CONFIGURATION (cfg = the "sensor" block the agent was built from) is authoritative for every
+    key it states (masks, slew rate, field of view and its shape/extents, range limits, radar and optical
+    parameters, background flag), so that an error on the way from the configuration to the Sensor object
+    is a disagreement with the oracle; only defaults the configuration leaves open are read off the object.
+    """
     from resonaate.sensors.field_of_view import ConicFoV
+    cfg = {k: v for k, v in (cfg or {}).items() if v is not None}
     f = sensor.field_of_view
     fov = ("conic", float(f.cone_angle)) if isinstance(f, ConicFoV) else \
         ("rect", float(f.azimuth_angle), float(f.elevation_angle))
+    fc = cfg.get("field_of_view")
+    if fc:
+        shape = str(getattr(fc.get("fov_shape"), "value", fc.get("fov_shape") or "rectangular"))
+        if shape == "conic":
+            fov = ("conic", math.radians(float(fc.get("cone_angle", 1.0))))
+        else:
+            fov = ("rect", math.radians(float(fc.get("azimuth_angle", 1.0))),
+                   math.radians(float(fc.get("elevation_angle", 1.0))))
+    rad = math.radians
     P = {"kind": kind, "host": host, "fov": fov,
-         "az_mask": [float(v) for v in sensor.az_mask], "el_mask": [float(v) for v in sensor.el_mask],
-         "min_range": None if sensor.minimum_range is None else float(sensor.minimum_range),
-         "max_range": None if sensor.maximum_range is None else float(sensor.maximum_range),
-         "slew_rate": float(sensor.slew_rate), "calc_bg": bool(sensor.calculate_background)}
+         "az_mask": [rad(float(v)) for v in cfg["azimuth_range"]] if "azimuth_range" in cfg
+         else [float(v) for v in sensor.az_mask],
+         "el_mask": [rad(float(v)) for v in cfg["elevation_range"]] if "elevation_range" in cfg
+         else [float(v) for v in sensor.el_mask],
+         "min_range": float(cfg["minimum_range"]) if "minimum_range" in cfg
+         else (None if sensor.minimum_range is None else float(sensor.minimum_range)),
+         "max_range": float(cfg["maximum_range"]) if "maximum_range" in cfg
+         else (None if sensor.maximum_range is None else float(sensor.maximum_range)),
+         "slew_rate": rad(float(cfg["slew_rate"])) if "slew_rate" in cfg else float(sensor.slew_rate),
+         "calc_bg": bool(cfg["background_observations"]) if "background_observations" in cfg
+         else bool(sensor.calculate_background)}
     if kind in ("radar", "adv_radar"):
-        P["radar"] = {"P": float(sensor.tx_power), "D": float(sensor.aperture_diameter),
-                      "eta": float(sensor.efficiency), "f": float(sensor.tx_frequency),
-                      "Pmin": float(sensor.min_detectable_power), "C": consts()["C"]}
+        freq = cfg.get("tx_frequency")
+        P["radar"] = {"P": float(cfg.get("tx_power", sensor.tx_power)),
+                      "D": float(cfg.get("aperture_diameter", sensor.aperture_diameter)),
+                      "eta": float(cfg.get("efficiency", sensor.efficiency)),
+                      "f": float(freq) if isinstance(freq, (int, float)) else float(sensor.tx_frequency),
+                      "Pmin": float(cfg.get("min_detectable_power", sensor.min_detectable_power)),
+                      "C": consts()["C"]}
     else:
-        P["detectable_vismag"] = float(sensor.detectable_vismag)
+        P["detectable_vismag"] = float(cfg.get("detectable_vismag", sensor.detectable_vismag))
     return P
